@@ -1,4 +1,84 @@
-(* C01 - placeholder statement file, replaced below *)
-From VJ Require Import Model.Str.
-Theorem C01_placeholder : True. Proof. exact I. Qed.
-Print Assumptions C01_placeholder.
+(* C01 - every JSX element renders the vnode type and props its source denotes. Statements only.
+
+   FULL STATEMENT (kept visible; decided on every generated probe by evaluating [check_site]
+   on the REAL output and on the model's output, see Corr/Run.v):
+     forall E el s, the lowering of el contains no "C01:" entry in
+       check_site E fuel el (fst (lower_el E el s)).
+   PROVED below (partial): the vnode type for every tag form, and - attribute by attribute - that
+   what the transform adds to the props object / merge arguments is exactly what the
+   independent reading of the attribute in Spec/Site.v ([attr_spec]) says, and nothing else of
+   the element changes.  Not proved: the composition over a whole attribute list with
+   mergeProps on (grouping of repeated class/style/listeners by [dedupe_props]); that part is
+   covered by the oracle on real outputs. *)
+From VJ Require Import Model.Str Model.Json Model.Ast Model.State Model.Util Model.Directive
+  Model.Lower Spec.JsxText Spec.OutViews Spec.Site Spec.SiteCheck Lemmas.SiteProofs.
+
+Definition C01_full_statement : Prop :=
+  forall E el s, filter (starts_with (s_ "C01:")) (check_site E 40 el (fst (lower_el E el s))) = [].
+
+(* HTML/SVG and custom-element tags: the tag string; bound identifier or member expression:
+   that value; unbound component name: runtime resolution by name; Fragment: Vue's Fragment *)
+Theorem C01_type_partial : forall E name s,
+  user_name name = true -> view_type (fst (transform_tag E name s)) = spec_type E name.
+Proof. exact transform_tag_type. Qed.
+Print Assumptions C01_type_partial.
+
+(* a plain attribute: written name (colon kept), true / whitespace-normalised string / expression *)
+Theorem C01_plain_attribute_partial : forall E ic tag all name value x a,
+  wf_attr_name name ->
+  spec_directive_name name = None ->
+  plain_value value = Some x -> user_value x = true ->
+  is_ton E name = false ->
+  let a' := attr_step E ic a (JAttr name value) in
+  a_props a' = a_props a ++ [KV (mk_str (attr_name_str name)) x]
+  /\ fst (fst (attr_spec E ic tag all (JAttr name value))) = [CKV (attr_name_str name) [x]]
+  /\ view_prop (KV (mk_str (attr_name_str name)) x) = CKV (attr_name_str name) [x]
+  /\ snd (fst (attr_spec E ic tag all (JAttr name value))) = []
+  /\ a_dirs a' = a_dirs a /\ a_margs a' = a_margs a /\ a_slots a' = a_slots a.
+Proof. exact plain_attr_refines. Qed.
+Print Assumptions C01_plain_attribute_partial.
+
+(* spreads: object-literal continuation without mergeProps, one mergeProps argument with it *)
+Theorem C01_spread_plain_partial : forall E ic tag all e a,
+  o_merge_props (e_opts E) = false ->
+  let a' := attr_step E ic a (Spread e) in
+  exists ps,
+    a_props a' = a_props a ++ ps /\ a_margs a' = a_margs a
+    /\ map view_prop ps = fst (fst (attr_spec E ic tag all (Spread e)))
+    /\ a_dirs a' = a_dirs a /\ a_slots a' = a_slots a.
+Proof. exact spread_refines_plain. Qed.
+Print Assumptions C01_spread_plain_partial.
+
+Theorem C01_spread_merge_partial : forall E ic tag all e a,
+  o_merge_props (e_opts E) = true ->
+  user_value e = true ->
+  let a' := attr_step E ic a (Spread e) in
+  a_props a' = []
+  /\ a_margs a' = a_margs a ++ (match a_props a with [] => [] | ps => [Obj (dedupe_props ps)] end) ++ [e]
+  /\ view_arg e = fst (fst (attr_spec E ic tag all (Spread e)))
+  /\ a_dirs a' = a_dirs a /\ a_slots a' = a_slots a.
+Proof. exact spread_refines_merge. Qed.
+Print Assumptions C01_spread_merge_partial.
+
+(* transformOn: an `on` / `nativeOn` object is converted to onXxx listeners by the runtime helper *)
+Theorem C01_transform_on_partial : forall E ic tag all name e a,
+  wf_attr_name name ->
+  spec_directive_name name = None ->
+  is_ton E name = true ->
+  let a' := attr_step E ic a (JAttr name (JExprC e)) in
+  exists flushed arg,
+    a_props a' = [] /\ a_margs a' = a_margs a ++ flushed ++ [arg]
+    /\ flushed = match a_props a with [] => [] | ps => [flush_obj E ps] end
+    /\ view_arg arg = fst (fst (attr_spec E ic tag all (JAttr name (JExprC e))))
+    /\ a_dirs a' = a_dirs a /\ a_slots a' = a_slots a.
+Proof. exact transform_on_refines. Qed.
+Print Assumptions C01_transform_on_partial.
+
+(* non-vacuity: the hypotheses are met by ordinary attributes *)
+Example C01_nonvacuous :
+  let name := JNs (IdName (s_ "xlink")) (IdName (s_ "href")) in
+  wf_attr_name name /\ spec_directive_name name = None
+  /\ plain_value (Str (s_ " a  b ") nnull) = Some (mk_str (s_ " a  b "))
+  /\ user_value (mk_str (s_ " a  b ")) = true
+  /\ attr_name_str name = s_ "xlink:href".
+Proof. vm_compute. repeat split. Qed.
